@@ -1,6 +1,6 @@
 # Per-property check composition: tools/reg/<ID>.py defines CHECK = {...} (parts = harness binaries + build flavour).
 import os, glob, importlib.util
-HOOK_COMMITS = ['cfb6e60', 'e12b5e8', 'ba9c43d', '038f149', '704a771']
+HOOK_COMMITS = ['cfb6e60', 'e12b5e8', 'ba9c43d', '038f149', '704a771', '4f16ce7', '792acf6']
 NOT_APPLICABLE = {}
 # only these are claimed in MANIFEST.json (a harness under construction can be run with ./check but is not registered)
 ENABLED = ['C01', 'C02', 'C03', 'C04', 'C05', 'C06', 'C07', 'C08', 'C09', 'C10', 'C11', 'C12', 'C13', 'C14', 'C15', 'C16', 'C17', 'C18', 'C19', 'C20']
